@@ -5,11 +5,11 @@ import policygen
 
 RULE = ('random policy configurations (default / user / group / at_console / mandatory contexts in random file order, 0-4 random rules each over '
         'type, interface, member, path, error, destination, destination prefix, sender, broadcast, requested_reply, eavesdrop, own, own_prefix) '
-        'with a fixed mandatory tail that keeps the driver reachable; three credentials (root, uid 1000, nobody); traffic: RequestName, unicast and '
+        'with a mandatory tail that keeps the driver reachable (in 30% only Hello and Peer, so that the other driver methods are decided by the random rules, prefix rules on org.freedesktop... included); every third configuration has a name that can be started on demand and calls to it; three credentials (root, uid 1000, nobody); traffic: RequestName, unicast and '
         'broadcast messages of all four types with fields present or absent, replies requested and not, match rules incl. eavesdropping; the '
         'model applies PolicyOps.tla (last matching rule wins, default deny) to every send, every receive and every own; '
         'every fourth scenario is a focused one: a rule naming a bus name (as sender, destination or prefix) while two connections hold that '
-        'name, one of them queued, and the primary releases half-way; every third history replaces the whole policy half-way through ReloadConfig; distinct = distinct (configuration, history) texts')
+        'name, one of them queued, and the primary releases half-way; every third history replaces the whole policy half-way through ReloadConfig; every sixth is a focused one on destination-prefix rules judged without a recipient connection (requests to the driver, calls that would start a service); distinct = distinct (configuration, history) texts')
 W = {'req': 2, 'rel': 0.5, 'query': 0.3, 'addmatch': 0.8, 'rmmatch': 0.2, 'signal': 6, 'call': 5, 'reply': 3.5,
      'usignal': 2, 'close': 0.3, 'driver_other': 0.2, 'nodest': 0.1}
 
@@ -61,10 +61,52 @@ def queued_owners(rng):
     return {'cfg': cfg, 'rounds': rounds}
 
 
+def prefix_without_recipient(rng):
+    """send_destination_prefix rules judged WITHOUT a recipient connection: requests to the bus driver itself and calls that
+    would start a service on demand; prefixes shorter than, equal to and longer than the destination"""
+    R = policygen.rule
+    pre = ['org', 'org.freedesktop', 'org.freedesktop.DBus', 'org.freedesktop.DBus.Private', 'com', 'com.example.A', 'com.example.A.Sub',
+           'com.example.A.Sub.Deeper', 'com.example.B']
+    rules = [R('send', True), R('recv', True), R('own', True)]
+    for _ in range(rng.choice([1, 2, 3])):
+        kw = {}
+        if rng.random() < 0.3:
+            kw['ty'] = 'method_call'
+        rules.append(R('send', rng.random() < 0.35, peer=rng.choice(pre), prefix=True, **kw))
+    ctxs = [['default', 0, rules],
+            ['mandatory', 0, [R('send', True, ifc='org.freedesktop.DBus.Peer', peer='org.freedesktop.DBus'),
+                              R('send', True, ifc='org.freedesktop.DBus', mem='Hello', peer='org.freedesktop.DBus'),
+                              R('recv', True, peer='org.freedesktop.DBus')]]]
+    cfg = {'policy_ctxs': ctxs, 'groups_of': policygen.GROUPS_OF, 'act': [{'n': 'com.example.A.Sub', 'kind': 'noexec'}]}
+    rounds = [{'ops': {str(s): [{'k': 'connect', 'uid': rng.choice([0, 1000])}, {'k': 'hello'}]}} for s in (1, 2, 3)]
+    rounds.append({'ops': {'2': [{'k': 'req', 'n': 'com.example.A', 'f': 0}], '3': [{'k': 'req', 'n': 'com.example.B', 'f': 0}]}})
+    for _ in range(rng.choice([4, 6])):
+        s = rng.choice([1, 2, 3])
+        r = rng.random()
+        if r < 0.45:
+            op = {'k': 'query', 'q': rng.choice(['owner', 'has', 'queued', 'list']), 'n': rng.choice(['com.example.A', 'com.example.B'])}
+        elif r < 0.55:
+            op = {'k': 'addmatch', 'rule': "type='signal'"}
+        elif r < 0.8:
+            op = {'k': 'send', 'ty': 1, 'dst': 'com.example.A.Sub', 'path': '/a', 'ifc': 'com.example.I', 'mem': 'Ma', 'sig': '', 'body': [],
+                  'fl': rng.choice([0, 0, 2])}
+        else:
+            op = {'k': 'send', 'ty': 1, 'dst': rng.choice(['com.example.A', 'com.example.B']), 'path': '/a', 'ifc': 'com.example.I', 'mem': 'Ma',
+                  'sig': '', 'body': [], 'fl': 0}
+        rounds.append({'ops': {str(s): [op]}})
+    return {'cfg': cfg, 'rounds': rounds}
+
+
 def gen(rng, i):
     if i % 4 == 3:
         return queued_owners(rng)
+    if i % 6 == 4:
+        return prefix_without_recipient(rng)
     cfg = {'policy_ctxs': policygen.random_ctxs(rng), 'groups_of': policygen.GROUPS_OF}
+    if i % 3 == 2:
+        # a name that can be started on demand (its program does not exist): a call to it is judged by the send rules
+        # before anything is started, without a recipient connection
+        cfg['act'] = [{'n': 'com.example.A.Sub', 'kind': 'noexec'}]
     g = gen_bus.Gen(rng, nslots=4, nnames=3, uids=(0, 1000, 65534), w=W, cfg=cfg, odd_rules=0.0, eavesdrop=0.2)
     scn = g.scenario(nrounds=rng.choice([10, 14]), concurrency=0.25, burst=0.35)
     # a cast for the destination / sender / own rules: everybody tries to own (or queue for) names and listens broadly
@@ -75,6 +117,11 @@ def gen(rng, i):
         cast.append({'ops': {str(s): ops}})
     n0 = len(g.slots)
     scn['rounds'] = scn['rounds'][:n0] + cast + scn['rounds'][n0:]
+    if cfg.get('act'):
+        for s in rng.sample(g.slots, 2):
+            at = rng.randrange(n0 + len(cast), len(scn['rounds']) + 1)
+            scn['rounds'].insert(at, {'ops': {str(s): [{'k': 'send', 'ty': 1, 'dst': 'com.example.A.Sub', 'path': '/a', 'ifc': rng.choice(policygen.P_IFACES),
+                                                        'mem': rng.choice(['Ma', 'Mb']), 'sig': '', 'body': [], 'fl': rng.choice([0, 0, 2])}]}})
     # every third history replaces the whole policy while the bus runs (ReloadConfig by whoever may call it)
     if i % 3 == 1:
         at = rng.randrange(n0 + len(cast), len(scn['rounds']) + 1)
